@@ -80,6 +80,10 @@ def _call(fn, *a, **k):
         signal.signal(signal.SIGALRM, old)
 
 
+_HAS_WEB_SCHEME = re.compile(r"https?://.", re.I)
+_AROUND = re.compile(r"^[\s\x00-\x1f\x7f-\x9f]+|[\s\x00-\x1f\x7f-\x9f]+$")
+
+
 def allowed_single_step(x):
     """every string the statement allows as single-step result (besides x itself)"""
     out = set()
@@ -97,15 +101,18 @@ def allowed_single_step(x):
         val = unquote(m.group(2))
         out.add(val)                        # absolute target
         if val.startswith("/"):
-            try:
-                if _PROTO.match(re.sub(r"[\x00-\x1f\x7f-\x9f]", "", x).strip()):   # protocol of the cleaned input (control characters, surrounding whitespace)
-                    out.add(urljoin(x, val))    # relative target: joined to the input, nothing else
-                else:
-                    out.add(urljoin("http://" + x, val)[7:])   # an input without protocol keeps its host (and stays without protocol)
-            except ValueError:
-                pass
-        else:
-            out.add("https://" + val)       # youtube-style scheme-less target
+            # "joined to the input": to the string as given, or to it without the whitespace / control characters *around* it (they are no part
+            # of the URL; which of the two is the library's choice)
+            for base in {x, _AROUND.sub("", x)}:
+                try:
+                    if _PROTO.match(re.sub(r"[\x00-\x1f\x7f-\x9f]", "", x).strip()):   # protocol of the cleaned input (control characters, surrounding whitespace)
+                        out.add(urljoin(base, val))    # relative target: joined to the input, nothing else
+                    else:
+                        out.add(urljoin("http://" + base, val)[7:])   # an input without protocol keeps its host (and stays without protocol)
+                except ValueError:
+                    pass
+        elif not _HAS_WEB_SCHEME.match(val):
+            out.add("https://" + val)       # youtube-style scheme-less target (a value that already carries http(s):// in any case is no such target)
         pos = m.start() + 1
     return out
 
@@ -208,7 +215,7 @@ def _place(position, kv):
 
 POSITIONS = ["query-first", "query-later", "query-only", "path", "path-question", "fragment", "fragment-first", "userinfo",
              "host", "host-path", "bare", "no-scheme-host"]
-TARGETS = ["http://target.org/x", "https://target.org/x?a=b", "HTTPS://target.org", "target.org/x", "/x", "/", "/?u=/x",
+TARGETS = ["HTTP://target.org/x", "Http://t.co", "http://a", "https://a", "http://target.org/x", "https://target.org/x?a=b", "HTTPS://target.org", "target.org/x", "/x", "/", "/?u=/x",
            "/a/../b?next=/c", "//evil.com/x", "https://", "http://", "", "x", "./rel", "../up", "?only=query", "#frag",
            "/x#f", "http://site.com/path", "/path", "https://t.co/?url=http://deep.org/",
            "https://cdn.ampproject.org/c/s/example.com/Story", "http://bc.marfeel.com/final.org/p", "/c/s/example.org/home", "https://x.cdn.ampproject.org/v/s/a.org/?u=/z"]
@@ -263,7 +270,7 @@ for _pre in ["https://bc.marfeelcache.com/amp/", "http://bc.marfeel.com/", "bc.m
 YOUTUBE_URLS = []
 CACHE_URLS += ["http://a.com/?url=http%3A%2F%2Fb.com%2Fout%3Fx%3D1%26amp%3Bnext%3Dhttp%253A%252F%252Fc.com", "http://a.com/?x=1&amp;url=http%3A%2F%2Fb.com%2F%3Fy%3D2%26amp%3Bu%3Dhttp%253A%252F%252Fc.org%252Fp",
                "https://x.cdn.ampproject.org/c/s/b.com/out?x=1&amp;next=http%3A%2F%2Fc.com"]
-for _q in ["q=%2Fwatch%3Fv%3Dabc", "q=%2F%2Ftwitch.tv%2Fx", "next=/rel&q=x.org", "q=example.com%2Fx", "q=http%3A%2F%2Fexample.com", "q=", "v=abc&q=example.org", "event=video&q=%2Frel", "redir_token=x&q=https%3A%2F%2Fa.b%2F%3Fq%3Dinner",
+for _q in ["q=HTTP%3A%2F%2Fa.fr", "q=Https%3A%2F%2Fa.fr%2Fx", "q=http%3A%2F%2Fa", "q=https%3A%2F%2Fa", "q=http%3A%2F%2F", "q=https%3A%2F%2F", "q=hTTp%3A%2F%2Fab&x=1", "q=%2Fwatch%3Fv%3Dabc", "q=%2F%2Ftwitch.tv%2Fx", "next=/rel&q=x.org", "q=example.com%2Fx", "q=http%3A%2F%2Fexample.com", "q=", "v=abc&q=example.org", "event=video&q=%2Frel", "redir_token=x&q=https%3A%2F%2Fa.b%2F%3Fq%3Dinner",
            "q=youtube.com%2Fredirect%3Fq%3Dfinal.org", "q=www.youtube.com%2Fredirect%3Fq%3Dwww.youtube.com%2Fredirect%3Fq%3Dx.org"]:
     for _h in ["https://www.youtube.com/redirect?", "youtube.com/redirect?", "https://www.youtube.com/url?", "https://www.google.com/url?", "https://x.com/redirect/?",
                "https://x.com/search?"]:
